@@ -105,3 +105,38 @@ package goja
 //@ func (*arrayObject).swap bounds
 //@   props C07
 //@   requires a != nil && i >= 0 && j >= 0
+
+// ---- fast paths of Array.prototype methods over the dense storage (C07 / C01: no index out of range)
+// The length is read first, the remaining arguments are coerced afterwards (valueOf/toString may run
+// script that shrinks the array); the dense fast path then indexes a.values with bounds derived from the
+// OLD length. Safety obligations only: every index and slice expression lies inside the storage.
+//@ func (*Runtime).checkStdArrayObj
+//@   props C07
+//@   ensures result != nil ==> int(result.length) == len(result.values) [dense-and-complete]
+//@   assigns nothing
+
+//@ func (*Runtime).arrayproto_indexOf bounds
+//@   props C07
+//@   requires r != nil
+//@   loop 1 invariant true [scan]
+//@   loop 2 invariant true [generic-scan]
+
+//@ func (*Runtime).arrayproto_includes bounds
+//@   props C07
+//@   requires r != nil
+//@   loop 1 invariant true [scan]
+//@   loop 2 invariant true [generic-scan]
+
+//@ func (*Runtime).arrayproto_lastIndexOf bounds
+//@   props C07
+//@   requires r != nil
+//@   loop 1 vars k int64, fromIndex int64, vals []Value
+//@   loop 1 invariant k <= fromIndex && fromIndex < int64(len(vals)) [inside-the-storage]
+//@   loop 2 invariant true [generic-scan]
+
+//@ func (*Runtime).arrayproto_fill bounds
+//@   props C07
+//@   requires r != nil
+//@   loop 1 vars k int64, final int64, arr *arrayObject
+//@   loop 1 invariant k >= 0 && arr != nil && final <= int64(len(arr.values)) [inside-the-storage]
+//@   loop 2 invariant true [generic-fill]
